@@ -66,6 +66,7 @@ FUC_ENC = ['segno.encoder.encode', 'segno.encoder.normalize_version', 'segno.enc
 # ------------------------------------------------------------------ ground table lemmas
 def task_tables(I):
     c = C.consts()
+    I.replay_spec = dict(fn='replay_table', table='SYMBOL_CAPACITY')
     g = I.ground
     for name, v in (('M1', iso.M1), ('M2', iso.M2), ('M3', iso.M3), ('M4', iso.M4)):
         g('C04.repr.micro_version.%s' % name, c.MICRO_VERSION_MAPPING[name] == v,
